@@ -71,9 +71,10 @@ def confirm (env : Env) (ss : Sealed) (proof : List (Bytes × Bytes)) : Outcome 
   if !(proof.all fun e => e.2.length = 64 && env.vm.sigOk e.1 msg e.2) then .ok false
   else
     let ep := ss.st.epoch
-    let total := ss.st.stakes.totalVotes ep
-    let present := (proof.map fun e => ss.st.stakes.votes ep e.1).sum
-    if total > U128_MAX ∨ present > U128_MAX then .crash "state.rs: vote sum overflow"
-    else .ok (decide (present * 3 > total * 2))
+    -- the tallies saturate at u128::MAX (`fix:` for the vote-sum overflow); a saturated total confirms nothing
+    let total := satU128 (ss.st.stakes.totalVotes ep)
+    if total = U128_MAX then .ok false else
+    let present := satSum (proof.map fun e => satU128 (ss.st.stakes.votes ep e.1))
+    .ok (decide (present * 3 > total * 2))
 
 end Mel
